@@ -29,6 +29,31 @@ class Infra(Exception):
     """Anything that is not a verdict: build failure, TLC crash/timeout, dead driver."""
 
 
+class LibraryPanic(Infra):
+    """The harness process died because goNEAT itself panicked inside a goroutine that goNEAT started (the reproduction
+    goroutines of the parallel executor): no recover() of the harness can catch that, the Go runtime ends the process.  This IS
+    behaviour of the code under check on an input the harness handed it, so a pipeline whose property covers that executor may
+    turn it into a violation; everywhere else it stays what Infra is (exit 2)."""
+
+    def __init__(self, msg, excerpt, args):
+        Infra.__init__(self, msg)
+        self.excerpt, self.cmd_args = excerpt, args
+
+
+def library_goroutine_panic(out):
+    """The text of the crashing goroutine when (a) the process ended with a Go panic / fatal error, (b) that goroutine was created by
+    goNEAT code and (c) no frame of it belongs to the harness; else None."""
+    m = re.search(r"^(panic: |fatal error: ).*?\n\ngoroutine \d+ \[running\]:\n(.*?)(?:\n\n|\Z)", out, re.S | re.M)
+    if not m:
+        return None
+    block = m.group(2)
+    if "verifharness/" in block or re.search(r"^main\.", block, re.M):
+        return None
+    if not re.search(r"^created by github\.com/yaricom/goNEAT/", block, re.M):
+        return None
+    return (m.group(0))[:2500]
+
+
 class TLCResult:
     def __init__(self):
         self.ok = False
@@ -162,6 +187,10 @@ class Ctx:
                     rep = json.load(f)
             except (OSError, ValueError):
                 rep = None
+        if p.returncode not in (0, 1):
+            ex = library_goroutine_panic(p.stdout + p.stderr)
+            if ex:
+                raise LibraryPanic("goNEAT panicked inside a goroutine of its own while the harness ran: vh %s\n%s" % (" ".join(args), ex), ex, args)
         if p.returncode not in (0, 1) or (expect_report and rep is None):
             raise Infra("harness command failed (exit %d): vh %s\n%s" % (p.returncode, " ".join(args), (p.stdout + p.stderr)[-4000:]))
         return p.returncode, rep, p.stdout + p.stderr
